@@ -998,6 +998,47 @@ Proof.
   rewrite (decode_encode _ _ Hp Hrt Ht). vm_compute. reflexivity.
 Qed.
 
+(* expanding a truncated name keeps the visible mark: whatever the frames and the
+   counter name, the expansion of a truncated name still ends with the marker *)
+Lemma decode_lines_app_exists a : forall last b,
+  exists last', decode_lines last (a ++ b) = decode_lines last a ++ decode_lines last' b.
+Proof.
+  induction a as [|l a IH]; intros last b; [exists last; reflexivity|].
+  cbn [app decode_lines]. destruct (cut_last_dot l) as [p r].
+  destruct p as [|c p].
+  - destruct (IH last b) as [l' ->]. exists l'. reflexivity.
+  - destruct (beq (c :: p) [34]).
+    + destruct (IH last b) as [l' ->]. exists l'. reflexivity.
+    + destruct (IH ((c :: p) ++ [46]) b) as [l' ->]. exists l'. reflexivity.
+Qed.
+
+Definition marker_word : bytes := [116; 114; 117; 110; 99; 97; 116; 101; 100].   (* truncated *)
+
+Lemma marker_shape : c_truncated_marker = 10 :: marker_word ++ [10].
+Proof. reflexivity. Qed.
+
+Lemma decode_marker_lines last : decode_lines last [marker_word; []] = [marker_word; []].
+Proof. reflexivity. Qed.
+
+Lemma decode_truncated_keeps_marker prefix fs : is_truncated prefix fs = true ->
+  exists body, decode_stack (encode_frames prefix fs) = body ++ c_truncated_marker.
+Proof.
+  intro Ht. rewrite (truncated_eq _ _ Ht).
+  set (kept := firstn (N.to_nat c_maxNameLen - length c_truncated_marker) (encode_raw prefix fs)).
+  rewrite marker_shape. unfold decode_stack. rewrite is_stack_app_nl.
+  rewrite split_app_nl.
+  assert (Hs : split_byte (marker_word ++ [10]) 10 = [marker_word; []]) by reflexivity.
+  rewrite Hs.
+  destruct (decode_lines_app_exists (split_byte kept 10) [] [marker_word; []]) as [l' ->].
+  rewrite decode_marker_lines.
+  exists (join (decode_lines [] (split_byte kept 10)) [10]).
+  rewrite join_app.
+  - cbn [join app]. reflexivity.
+  - intro E. apply (f_equal (@length bytes)) in E. rewrite decode_lines_length in E.
+    destruct (split_byte kept 10) eqn:E2; [exact (split_byte_nonempty _ _ E2)|discriminate].
+  - discriminate.
+Qed.
+
 (* ------------------------------------------------------------ statements with the literal bound *)
 
 Lemma length_bound_lit prefix fs : N.of_nat (length (encode_frames prefix fs)) <= 4096.
